@@ -57,3 +57,8 @@ CLAIMS["C15"] = {
     "note": "Matcher precedence among several candidates of the same class is not judged (the property orders classes only). Rendered output of these structures is cross-checked by C07/C08.",
     "technique": "runtime monitoring: reference bucket/matcher/window models compared with the real structures over generated cases (mock clock)",
 }
+CLAIMS["C12"] = {
+    "text": "Exploration: thousands of update/advance/observe histories under a mock clock, with advances placed exactly at, one tick below and above the timeout, checked step by step against a per-(kind,key) reference idle state machine, both directly against Recency+Registry (including the same key under two kinds) and through the Prometheus exporter's render(). Held = the dropped set and the surviving values matched the reference at every observation.",
+    "note": "Time is the mocked quanta clock; the exporter leg uses distinct names per kind as the exporter requires.",
+    "technique": "runtime monitoring: reference idle state machine stepped in lock-step with the real recency/registry under a mock clock",
+}
